@@ -25,11 +25,63 @@ class _CL(ast.NodeTransformer):
             return ast.IfExp(test=node.args[0], body=node.args[1], orelse=node.args[2])
         return node
 
+    def visit_Compare(self, node):
+        """With approx=True (real-valued contracts replayed in floating point) comparisons go
+        through a tolerant helper: the proof is over the reals, the replay must not 'confirm' a
+        counter-model because of rounding in the last bits."""
+        self.generic_visit(node)
+        if not getattr(self, 'approx', False):
+            return node
+        ops = {ast.Eq: 'eq', ast.NotEq: 'ne', ast.Lt: 'lt', ast.LtE: 'le', ast.Gt: 'gt',
+               ast.GtE: 'ge'}
+        terms = []
+        left = node.left
+        for op, right in zip(node.ops, node.comparators):
+            if type(op) not in ops:
+                return node
+            terms.append(ast.Call(func=ast.Name(id='_cmp', ctx=ast.Load()),
+                                  args=[ast.Constant(ops[type(op)]), left, right], keywords=[]))
+            left = right
+        return terms[0] if len(terms) == 1 else ast.BoolOp(op=ast.And(), values=terms)
 
-def compile_cl(text):
+
+def compile_cl(text, approx=False):
     tree = ast.parse(text.strip(), mode='eval')
-    tree = ast.fix_missing_locations(_CL().visit(tree))
+    tr = _CL()
+    tr.approx = approx
+    tree = ast.fix_missing_locations(tr.visit(tree))
     return compile(tree, '<contract>', 'eval')
+
+
+def _cmp(op, a, b, tol=1e-9):
+    """Tolerant comparison of real-valued contract terms evaluated in floating point (tuples
+    elementwise): a strict inequality must hold by a margin to count as violated."""
+    import numbers
+    if isinstance(a, (tuple, list)) and isinstance(b, (tuple, list)):
+        if len(a) != len(b):
+            return op == 'ne'
+        rs = [_cmp('eq', x, y, tol) for x, y in zip(a, b)]
+        return all(rs) if op == 'eq' else (not all(rs)) if op == 'ne' else False
+    if not (isinstance(a, numbers.Real) and isinstance(b, numbers.Real)) \
+            or isinstance(a, bool) or isinstance(b, bool):
+        return {'eq': a == b, 'ne': a != b}.get(op, False)
+    a, b = float(a), float(b)
+    m = tol * (1.0 + abs(a) + abs(b))
+    return {'eq': abs(a - b) <= m, 'ne': abs(a - b) > m, 'lt': a < b + m, 'le': a <= b + m,
+            'gt': a > b - m, 'ge': a >= b - m}[op]
+
+
+def math_helpers():
+    import math
+    try:
+        from scipy.special import erf
+    except Exception:  # noqa: BLE001
+        erf = math.erf
+    return {'exp_': math.exp, 'erf_': lambda v: float(erf(v)), 'sin_': math.sin, 'cos_': math.cos,
+            'sqrt_': math.sqrt, 'asin_': math.asin, 'deg2rad_': math.radians,
+            'pi_': lambda: math.pi, '_cmp': _cmp,
+            'forall_real': lambda fn: True,      # mathematical lemmas hold for the real functions
+            'record_': lambda cls, **kw: build(cls, kw)}
 
 
 def make_helpers(int_candidates):
@@ -107,6 +159,19 @@ def build(typ, v):
     if typ == 'BoundingBox':
         from photutils.aperture import BoundingBox
         return BoundingBox(int(v['ixmin']), int(v['ixmax']), int(v['iymin']), int(v['iymax']))
+    if typ == 'EllipseGeometry':
+        from photutils.isophote import EllipseGeometry
+        return EllipseGeometry(float(v['x0']), float(v['y0']), 10.0, 0.2, float(v['pa']))
+    if typ == 'Quantity':
+        import astropy.units as u
+
+        class _Angle(u.Quantity):          # the contract reads the angle as `.rad`
+            @property
+            def rad(self):
+                return float(self.to_value(u.rad))
+        return _Angle(float(v['rad']), u.rad)
+    if typ == 'none':
+        return None
     return v
 
 
@@ -128,8 +193,22 @@ def ints_of(x, acc):
 
 
 def replay_pyvc(rec):
-    model = {k: v for k, v in (rec.get('model') or {}).items() if not k.startswith('_')}
-    case = (rec.get('model') or {}).get('_case', {})
+    """Replay the counter-model; when it does not reproduce, try the alternative models the
+    verifier recorded (the first confirmed one is reported)."""
+    first = _replay_one(rec, rec.get('model') or {})
+    if first[0] == 'confirmed':
+        return first
+    for k, alt in enumerate((rec.get('model') or {}).get('_alternatives', [])):
+        r = _replay_one(rec, alt)
+        if r[0] == 'confirmed':
+            r[2]['model_used'] = {kk: vv for kk, vv in alt.items() if not kk.startswith('_')}
+            return r[0], f'(alternative counter-model {k + 1}) ' + r[1], r[2]
+    return first
+
+
+def _replay_one(rec, fullmodel):
+    model = {k: v for k, v in fullmodel.items() if not k.startswith('_')}
+    case = fullmodel.get('_case', {})
     rp = rec['replay']
     modname, qual = rp['call'].split(':')
     mod = importlib.import_module(modname)
@@ -140,15 +219,20 @@ def replay_pyvc(rec):
     argtypes = rp.get('argtypes', {})
     env = {}
     for a in rp.get('args', []):
-        v = case[a] if a in case else gather(model, a)
+        const = rp.get('const', {})
+        v = const[a] if a in const else case[a] if a in case else gather(model, a)
         env[a] = build(argtypes.get(a), v)
     selfobj = None
-    if rp.get('self'):
+    if rp.get('self') and rp['self'] != 'none':
         selfobj = build(rp['self'], gather(model, 'self'))
         env['self'] = selfobj
     cands = set([0, 1, -1])
     ints_of(model, cands)
     helpers = make_helpers(cands)
+    approx = bool(rp.get('approx'))
+    if approx:
+        helpers.update(math_helpers())
+    _compile = lambda t: compile_cl(t, approx)  # noqa: E731
     observed = {}
     raised = None
     try:
@@ -158,14 +242,24 @@ def replay_pyvc(rec):
                 result = getattr(selfobj, parts[-1])
             else:
                 result = getattr(selfobj, parts[-1])(*[env[a] for a in rp.get('args', [])])
+        elif rp.get('self') == 'none':
+            # a method that does not use its instance (model evaluate): called unbound
+            result = getattr(obj, parts[-1])(None, *[env[a] for a in rp.get('args', [])])
         else:
             result = getattr(obj, parts[-1])(*[env[a] for a in rp.get('args', [])])
+        if approx and hasattr(result, 'tolist'):
+            result = result.tolist()
+        if isinstance(result, list):
+            result = tuple(result)
         observed['result'] = repr(result)
     except Exception as e:  # noqa: BLE001 - the raise behaviour is part of the contract
         raised = type(e).__name__
         observed['raised'] = f'{raised}: {e}'
         result = None
-    scope = dict(helpers)
+    # module-level constants of the function's module are visible to contract text
+    scope = {k: v for k, v in vars(mod).items()
+             if isinstance(v, (int, float)) and not k.startswith('__')}
+    scope.update(helpers)
     scope.update(env)
     scope['result'] = result
     rel = rp.get('relate')
@@ -175,11 +269,18 @@ def replay_pyvc(rec):
             scope[a] = build(argtypes.get(a), case[a] if a in case else gather(model, a))
         env2 = dict(env)
         for a, text in rel.get('second', {}).items():
-            env2[a] = eval(compile_cl(text), scope)
+            env2[a] = eval(_compile(text), scope)
         try:
-            fn = getattr(obj, parts[-1]) if selfobj is None else getattr(env2.get('self', selfobj),
-                                                                          parts[-1])
-            scope['result2'] = fn(*[env2[a] for a in rp.get('args', [])])
+            a2 = [env2[a] for a in rp.get('args', [])]
+            if selfobj is not None:
+                r2 = getattr(env2.get('self', selfobj), parts[-1])(*a2)
+            elif rp.get('self') == 'none':
+                r2 = getattr(obj, parts[-1])(None, *a2)
+            else:
+                r2 = getattr(obj, parts[-1])(*a2)
+            if approx and hasattr(r2, 'tolist'):
+                r2 = r2.tolist()
+            scope['result2'] = tuple(r2) if isinstance(r2, list) else r2
             observed['result2'] = repr(scope['result2'])
         except Exception as e:  # noqa: BLE001
             observed['raised2'] = f'{type(e).__name__}: {e}'
@@ -189,7 +290,7 @@ def replay_pyvc(rec):
     # precondition must hold for the counterexample to count
     for r in rp.get('requires', []):
         try:
-            if not eval(compile_cl(r), scope):
+            if not eval(_compile(r), scope):
                 return 'spurious', f'model violates requires {r!r} after float conversion', observed
         except Exception as e:  # noqa: BLE001
             return 'error', f'requires {r!r}: {e}', observed
@@ -197,7 +298,7 @@ def replay_pyvc(rec):
     if raised is None:
         for label, text in rp.get('ensures', []):
             try:
-                ok = eval(compile_cl(text), scope)
+                ok = eval(_compile(text), scope)
             except Exception as e:  # noqa: BLE001
                 failed.append(f'{label}: evaluation error {type(e).__name__}: {e}')
                 continue
@@ -205,7 +306,7 @@ def replay_pyvc(rec):
                 failed.append(label)
         for exc, cond in rp.get('raises', []):
             try:
-                if eval(compile_cl(cond), scope):
+                if eval(_compile(cond), scope):
                     failed.append(f'should raise {exc} ({cond})')
             except Exception:  # noqa: BLE001
                 pass
@@ -215,7 +316,7 @@ def replay_pyvc(rec):
             if exc == raised:
                 listed = True
                 try:
-                    if not eval(compile_cl(cond), scope):
+                    if not eval(_compile(cond), scope):
                         failed.append(f'raised {exc} although not ({cond})')
                 except Exception:  # noqa: BLE001
                     pass
